@@ -35,13 +35,19 @@ Definition x_loop (x : sx) : sx :=
   of_lstate (run (to_cfg x) (map to_state (to_list (nthx 7 x))) (init (to_nat (nthx 6 x)))).
 (* args: max_samples, max_shots|(), F, heralds, ps, keep, herald_det_ok, fast, source_defined, ratio, oracle
    -> (0) | (1 batches) | (2 lstate) *)
-Definition x_sim (x : sx) : sx :=
-  match sim_samples (to_cfg x) (to_bool (nthx 6 x)) (to_bool (nthx 7 x)) (to_bool (nthx 8 x)) (to_Qc (nthx 9 x))
+Definition x_sim_cfg (old_code : bool) (x : sx) : sx :=
+  match sim_samples_cfg old_code (to_cfg x) (to_bool (nthx 6 x)) (to_bool (nthx 7 x)) (to_bool (nthx 8 x)) (to_Qc (nthx 9 x))
                     (map to_state (to_list (nthx 10 x))) with
   | SimEmpty => L [I 0%Z]
   | SimFast b => L [I 1%Z; of_nats b]
   | SimLoop s => L [I 2%Z; of_lstate s]
   end.
+Definition x_sim := x_sim_cfg false.
+Definition x_sim_old_code := x_sim_cfg true.
+(* _compute_samples_with_perf.  args: old_code, F, max_shots|(), x, prepare_samples -> (prepare_samples' max_shots'|()) *)
+Definition x_scale (x : sx) : sx :=
+  let old := to_bool (nthx 0 x) in let F := to_nat (nthx 1 x) in let k := to_optnat (nthx 2 x) in
+  L [of_nat_sx (scale_prepare_cfg old F k (to_Qc (nthx 3 x)) (to_nat (nthx 4 x))); of_optnat (scale_shots_cfg old F k (to_Qc (nthx 3 x)))].
 (* args: xs (rationals), count, oracle (indices) -> () | (counts) *)
 Definition x_repair (x : sx) : sx :=
   match repair (map to_Qc (to_list (nthx 0 x))) (to_Z (nthx 1 x)) (to_nats (nthx 2 x)) with
